@@ -13,6 +13,8 @@ import Golib.Proof.C18Best
 import Golib.Proof.C18Top
 import Golib.Proof.C18SolvH2
 import Golib.Proof.C18CliquesTop
+import Golib.Proof.C18SolvOrd
+import Golib.Proof.C18Permute
 
 namespace Golib.C18
 
@@ -97,6 +99,28 @@ theorem c18_solvers_complete {α : Type} (br : Option (List α → List α → B
     obtain ⟨e', he', rfl⟩ := List.mem_map.mp hk
     exact ⟨e'.2, (b e' he').1, (b e' he').2⟩
   · intro ha; exact c t ha ht
+
+/-- Order independence of what is observed: for any two choices of the iteration orders,
+the cell stored under a key `k` is the same whenever `k` is at most every attainable total
+above `maxValue` (`InK`) — that is, for every `k ≤ maxValue` and for the least attainable
+total above `maxValue`.  (Together with `c18_pool_no_alias` this is also the content of the
+map returned by the heap-level model.)  This is what the correspondence check compares,
+Go's map order being real randomness. -/
+theorem c18_solvers_order_independent {α : Type} (br : Option (List α → List α → Bool)) (maxV : Int)
+    (allowOver : Bool) (vf : α → Int) (ord1 ord2 ord1' ord2' : Nat → List Int → List Int)
+    (hord1 : ∀ i l, (ord1 i l).Perm l) (hord2 : ∀ i l, (ord2 i l).Perm l)
+    (hord1' : ∀ i l, (ord1' i l).Perm l) (hord2' : ∀ i l, (ord2' i l).Perm l)
+    (items : List α) (hpos : ∀ x ∈ items, 0 < vf x) (k : Int)
+    (hk : ∀ a, Att vf items a → maxV < a → k ≤ a) :
+    alLookup k (solversV br maxV allowOver vf ord1 ord2 items) =
+      alLookup k (solversV br maxV allowOver vf ord1' ord2' items) :=
+  solversV_order_indep br maxV allowOver vf ord1 ord2 ord1' ord2' hord1 hord2 hord1' hord2' items
+    (fun x hx => Int.le_of_lt (hpos x hx)) (fun _ => hpos) k hk
+
+/-- The iteration orders the executable driver derives from a seed are permutations, so the
+runs compared with the Go code are instances of the theorems above. -/
+theorem c18_driver_orders_are_permutations (seed : Nat) (l : List Int) : (permute seed l).Perm l :=
+  permute_perm seed l
 
 /-- Non-vacuity: values 2, 3, 3 with `maxValue = 4`, overshoot allowed, an accepting
 tie-breaker (so the pool is exercised), reversed iteration orders. -/
